@@ -177,9 +177,12 @@ def execute(case):
                 for _ in range(2)]
     # families whose keys have several equal-but-differently-typed spellings (trait `spelling`, selected by k[0]): the
     # junk that precedes the batch in W1 contains the same family in the next spelling
+    # (scenarios.JUNK: family -> case transformer, e.g. next key spelling, another sharding seed with the same geometry)
     for c in batch:
-        if "spelling" in scenarios.TRAITS.get(c["family"], ()):
-            preamble.append({"family": c["family"], "seed": c["seed"], "k": [c["k"][0] + 1] + list(c["k"][1:])})
+        mk = scenarios.JUNK.get(c["family"])
+        if mk is not None:
+            j = mk(c)
+            preamble.append({"family": c["family"], "seed": j["seed"], "k": list(j["k"])})
     runs = lambda idx, tag: [{"slot": i, "tag": tag, "case": batch[i]} for i in idx]  # noqa: E731
     jobs = {
         "W0": ({"runs": runs(order, "W0") + runs(order[:1], "W0'")}, 0, False),
